@@ -143,7 +143,7 @@ def judge(meta, info, P, fault):
     return None
 
 
-def fault_table(rep, rng, thorough):
+def fault_table(rep, rng, thorough, with_model=True):
     lines, metas = [], []
     i = 0
     for shape, spec in TABLE_SHAPES.items():
@@ -172,7 +172,8 @@ def fault_table(rep, rng, thorough):
                                 P = make_problem(shape, warm, variant)
                                 r1, r2, lr = stub_results(shape, variant)
                                 f = base.Fault(pass_, step, cls)
-                                lines.append(base.model_line(call, P, method, False, True, None, r1, r2, lr, f))
+                                if with_model:
+                                    lines.append(base.model_line(call, P, method, False, True, None, r1, r2, lr, f))
                                 text, info = base.observe(P, call, method, False, True, None, r1, r2, lr, fault=f)
                                 meta = {"shape": shape, "warm": warm, "call": call, "method": method, "variant": variant,
                                         "fault": f.js()}
@@ -189,8 +190,8 @@ def fault_table(rep, rng, thorough):
                                     bad.update({"kind_of_case": "table", "case": meta, "observed": text[:300]})
                                     rep.oracle_failures.append(bad)
                                 metas.append((meta, text, info["fired"]))
-    outs = run_lean_unit(lines)
-    rep.evaluations += len(lines)
+    outs = run_lean_unit(lines) if with_model else [t for _, t, _ in metas]
+    rep.evaluations += len(metas)
     for (meta, text, fired), model in zip(metas, outs):
         st = meta["fault"][1]
         k = f"fault:{st if isinstance(st, str) else st[0]}:{'fired' if fired else 'not-reached'}"
@@ -347,8 +348,8 @@ def judge_real(case, out, cls):
     return None
 
 
-def real_fault_cases(rep, rng, thorough):
-    kmax = 12 if thorough else 5
+def real_fault_cases(rep, rng, thorough, kmax=None):
+    kmax = kmax or (12 if thorough else 5)
     for shape, spec in REAL_SHAPES.items():
         for method in REAL_METHODS[shape]:
             for kind in EVAL_KINDS:
@@ -453,11 +454,15 @@ def run(ctx) -> core.Report:
 def search(ctx, rep):
     r2 = core.Report()
     rng = core.Rng(ctx["seed"] + 49979687)
-    real_fault_cases(r2, rng, True)
     real_lp_faults(r2)
     if r2.oracle_failures:
         return r2.oracle_failures[0]
-    fault_table(r2, rng, True)
+    # bounded (≈2 min): the quick fault table with another seed (its oracle half does not use the model),
+    # then the real-solver faults with a wider k range
+    fault_table(r2, rng, False, with_model=False)
+    if r2.oracle_failures:
+        return r2.oracle_failures[0]
+    real_fault_cases(r2, rng, False, kmax=9)
     return r2.oracle_failures[0] if r2.oracle_failures else None
 
 
